@@ -259,8 +259,10 @@ func checkMain(args []string) int {
 	}
 	agg := merge(outs)
 	if len(agg.ToolErrors) > 0 {
+		// A self-check of the simulator failed in some run. Violations found in
+		// other runs of the batch are still reported below; without any, the
+		// batch ends with status 2 (never with a VIOLATION line of its own).
 		fmt.Fprintf(os.Stderr, "tool errors: %v\n", agg.ToolErrors)
-		return 2
 	}
 	if agg.DetMismatch > 0 {
 		// A run whose recorded action list does not reproduce its own digest.
@@ -313,6 +315,9 @@ func checkMain(args []string) int {
 		return 2
 	}
 	fmt.Printf("done %s: %d runs, %d actions, %.0f sim ticks, %d non-trivial, foreign=%v, %.1fs\n", prop, agg.Runs, agg.Actions, float64(agg.Ticks), agg.NonTrivial, agg.Foreign, wall)
+	if exit == 0 && len(agg.ToolErrors) > 0 {
+		return 2
+	}
 	return exit
 }
 
